@@ -67,6 +67,53 @@ fn kx_panic_m_advance_mut() {
     core::mem::forget(b);
 }
 
+// ---- quick frame obligations: the same wrappers on an 8-byte allocation (cheap for
+// proof_for_contract); offset / len / cap / refcount stay symbolic, both representations.
+// "Nothing written before the panic" is thereby decided on every change (seeds C13-5/6 showed that
+// the plain quick variant below cannot see a write that precedes the panic).
+fn any_m8() -> (BytesMut, MGhost) {
+    let (base, vcap) = alloc_fixed(8);
+    if kani::any() { marc_on(base, vcap, any_count()) } else { mvec_on(base, vcap) }
+}
+
+// @ob props=C13,C02,C04 tier=quick kind=Kbounded bound="allocation size 8" expect="panic:(BytesMut::split_off|BytesMut::split_to|BytesMut as .*Buf>::advance|panic_advance)$" fns=BytesMut::split_off timeout=900
+#[kani::proof_for_contract(m_split_off_oob)]
+fn kx_panic_m_split_off_frame_k8() {
+    let (mut b, g) = any_m8();
+    let at: usize = kani::any();
+    let r = m_split_off_oob(&mut b, at);
+    core::mem::forget(r);
+    core::mem::forget(b);
+}
+
+// @ob props=C13,C02,C04 tier=quick kind=Kbounded bound="allocation size 8" expect="panic:(BytesMut::split_off|BytesMut::split_to|BytesMut as .*Buf>::advance|panic_advance)$" fns=BytesMut::split_to timeout=900
+#[kani::proof_for_contract(m_split_to_oob)]
+fn kx_panic_m_split_to_frame_k8() {
+    let (mut b, g) = any_m8();
+    let at: usize = kani::any();
+    let r = m_split_to_oob(&mut b, at);
+    core::mem::forget(r);
+    core::mem::forget(b);
+}
+
+// @ob props=C13,C02,C09 tier=quick kind=Kbounded bound="allocation size 8" expect="panic:(BytesMut::split_off|BytesMut::split_to|BytesMut as .*Buf>::advance|panic_advance)$" fns=BytesMut::advance timeout=900
+#[kani::proof_for_contract(m_advance_oob)]
+fn kx_panic_m_advance_frame_k8() {
+    let (mut b, g) = any_m8();
+    let n: usize = kani::any();
+    m_advance_oob(&mut b, n);
+    core::mem::forget(b);
+}
+
+// @ob props=C13,C02,C11 tier=quick kind=Kbounded bound="allocation size 8" expect="panic:(BytesMut::split_off|BytesMut::split_to|BytesMut as .*Buf>::advance|panic_advance)$" fns=BytesMut::advance_mut timeout=900
+#[kani::proof_for_contract(m_advance_mut_oob)]
+fn kx_panic_m_advance_mut_frame_k8() {
+    let (mut b, g) = any_m8();
+    let n: usize = kani::any();
+    m_advance_mut_oob(&mut b, n);
+    core::mem::forget(b);
+}
+
 // ---- quick variant (see b_panic.rs) -----------------------------------------------------------
 
 // @ob props=C13,C02,C04 tier=quick kind=Kinf expect="panic:(BytesMut::split_off|BytesMut::split_to|BytesMut as .*Buf>::advance|panic_advance)$" fns=BytesMut::split_off,BytesMut::split_to,BytesMut::advance,BytesMut::advance_mut
